@@ -368,9 +368,37 @@ func c15d(c *Ctx) {
 			c.Bad(inst, next[0].Pos(), "the next phase can start although this phase returned an error (path "+g.describePath(path)+")")
 			return
 		}
-		// witness: the last nil test before the next phase
-		nilE, _, _, _ := OutcomeEdges(call)
-		c.add(Result{Instance: inst, Verdict: Discharged, Sites: []string{call.Pos(), next[0].Pos()}, Detail: "with err != nil the next phase is unreachable from this call", Witnesses: f.WitEdges(nilE)})
+		// witnesses: the nil tests whose neutralisation (treated as unknown) lets the next phase start
+		nec := map[Edge]bool{}
+		for e := range tests {
+			cond := Cond(e.From)
+			env2 := func(x ast.Expr) Tri {
+				if x == cond || ast.Unparen(x) == ast.Unparen(cond) {
+					return Unknown
+				}
+				return env(x)
+			}
+			// evaluate with this whole condition unknown
+			cutE := map[Edge]bool{}
+			for _, b := range g.Blocks {
+				cb := Cond(b)
+				if cb == nil || cb == cond {
+					continue
+				}
+				switch evalCond(cb, env2) {
+				case True:
+					cutE[Edge{b, 1}] = true
+				case False:
+					cutE[Edge{b, 0}] = true
+				}
+			}
+			if pt, _ := g.Reach(call.After(), Cut{Edges: cutE}, atAnySite(next)); pt != nil {
+				if eq, ok := isNilCmp(info, ast.Unparen(cond), isErr); ok && e.Idx == map[bool]int{true: 0, false: 1}[eq] {
+					nec[e] = true
+				}
+			}
+		}
+		c.add(Result{Instance: inst, Verdict: Discharged, Sites: []string{call.Pos(), next[0].Pos()}, Detail: "with err != nil the next phase is unreachable from this call", Witnesses: f.WitEdges(nec)})
 	}
 	phaseGate("metadata before packages", meta[0], pkgs)
 	phaseGate("packages before commit", pkgs[0], com)
